@@ -28,7 +28,7 @@ func tlsSigAlgs(vers uint16) []uint16 {
 }
 
 // scriptedTLSClient: ClientHello, server flight, then the second flight over CKX CCS FIN (HR / HX).
-func scriptedTLSClient(conn net.Conn, suite uint16, tk bool, chv uint16, packing string) (log string) {
+func scriptedTLSClient(conn net.Conn, suite uint16, tk bool, chv uint16, packing string, comp []byte) (log string) {
 	vc := gmtls.VerifNewConn(conn, &gmtls.Config{InsecureSkipVerify: true}, true)
 	defer vc.Release()
 	defer func() {
@@ -46,7 +46,7 @@ func scriptedTLSClient(conn net.Conn, suite uint16, tk bool, chv uint16, packing
 	}
 	vc.SetVersion(chv)
 	cr := rnd(32)
-	ch := gmtls.VerifMarshalClientHello(gmtls.VerifClientHello{Vers: chv, Random: cr, CipherSuites: []uint16{suite}, CompressionMethods: []uint8{0},
+	ch := gmtls.VerifMarshalClientHello(gmtls.VerifClientHello{Vers: chv, Random: cr, CipherSuites: []uint16{suite}, CompressionMethods: comp,
 		ServerName: "localhost", TicketSupported: tk, SecureRenegotiationSupported: true, SignatureAlgorithms: tlsSigAlgs(chv)})
 	rmust(vc.WriteHandshake(ch), "write ClientHello")
 	shRaw := rexpect(vc, tSH, "ServerHello")
